@@ -117,7 +117,7 @@ def strategy(tier):
 POOL_KINDS = ["list", "list", "tuple", "generator", "map", "reversed", "dict_keys", "iter"]
 
 
-def _pool(values, kind):
+def _as_container(values, kind):
     values = list(values)
     if kind == "tuple":
         return tuple(values)
@@ -343,7 +343,7 @@ def run_case(desc) -> Result:
     pool_kind = desc.get("pool_kind", "list")
     labels.append(f"pool_kind={pool_kind}")
     ps = under_test(
-        "PoolSum()", PoolSum, build(body), *[(_sym(n), _pool([_num(v) for v in p], pool_kind)) for n, p in indices]
+        "PoolSum()", PoolSum, build(body), *[(_sym(n), _as_container([_num(v) for v in p], pool_kind)) for n, p in indices]
     )
     ref = ref_sum(body, indices, {})
 
